@@ -24,9 +24,9 @@ pub struct Atom {
     pub searches: Vec<u64>,
 }
 
-pub const KINDS: [&str; 14] = [
+pub const KINDS: [&str; 16] = [
     "down", "loop_if", "loop_or", "loop_iferror", "loop_optor", "map", "map_down", "nth", "take_while", "skip_until", "gen_len", "gen_map_len", "gen_get",
-    "seq_eq",
+    "seq_eq", "binom", "multinom",
 ];
 
 pub fn atom(kind: &str, k: usize, n: u64) -> Atom {
@@ -192,6 +192,36 @@ pub fn atom(kind: &str, k: usize, n: u64) -> Atom {
             tail: 0,
             searches: vec![n],
         },
+        "binom" => Atom {
+            kind: "binom",
+            param: n,
+            decl: String::new(),
+            expr: format!("binom({}, {n})", n + 2),
+            value: ((n + 2) * (n + 1) / 2) as i64,
+            calls: 0,
+            height: 0,
+            tail: 0,
+            // one search step per factor
+            searches: vec![n],
+        },
+        "multinom" => {
+            // multinom([n + 5, n]) = C(2n + 5, n); steps = sum of all terms but the largest = n
+            let mut c: u128 = 1;
+            for i in 0..n as u128 {
+                c = c * (2 * n as u128 + 5 - i) / (i + 1);
+            }
+            Atom {
+                kind: "multinom",
+                param: n,
+                decl: String::new(),
+                expr: format!("multinom([{}, {n}]) % 1000003", n + 5),
+                value: (c % 1_000_003) as i64,
+                calls: 0,
+                height: 0,
+                tail: 0,
+                searches: vec![n],
+            }
+        }
         other => panic!("unknown atom kind {other}"),
     }
 }
